@@ -1,7 +1,7 @@
 (* SessRecv.v -- the receive loop: any fragmentation of the transport bytes dispatches the same frames
    in the same order as the unfragmented byte string; reader and table facts used by the pipe theorems. *)
 From Coq Require Import List NArith ZArith Lia Bool.
-From AnyTLS Require Import Bytes Cmd Generated GeneratedFacts Frame Reader Session BytesFacts FrameProofs
+From AnyTLS Require Import Bytes Cmd Generated FactsCore FactsSession Frame Reader Session BytesFacts FrameProofs
   ReaderProofs SessTable SessHandle.
 Import ListNotations.
 Import Sess.
